@@ -117,7 +117,8 @@ Definition verify_fido_u2f (O : oracles) (now : Z) (st : att_stmt) (cdj rp_hash 
       need (crv =? 1) ;;;
       let* dk := decode_credential_public_key cred_pk in
       match dk with
-      | DEC2 _ _ x y =>
+      | DEC2 alg kcrv x y =>
+          need (cbor_eq_int alg ALG_ES256 && cbor_eq_int kcrv CRV_P256) ;;;
           let* xb := as_bytes x in
           let* yb := as_bytes y in
           let vdata := [0] ++ rp_hash ++ sha256 O cdj ++ cred_id ++ ([4] ++ xb ++ yb) in
